@@ -437,7 +437,7 @@ impl Node for BuiltInOp {
             BuiltInOp::Sub(a, b) => BuiltInOp::Sub(a.apply(visitor)?, b.apply(visitor)?),
             BuiltInOp::Concat(a, b) => BuiltInOp::Concat(a.apply(visitor)?, b.apply(visitor)?),
             BuiltInOp::Negate(x) => BuiltInOp::Negate(x.apply(visitor)?),
-            BuiltInOp::Property(x, i) => BuiltInOp::Property(x.apply(visitor)?, i),
+            BuiltInOp::Property(x, i) => BuiltInOp::Property(x.apply(visitor)?, i.apply(visitor)?),
         };
 
         Ok(visited)
@@ -585,7 +585,7 @@ impl Node for HashMap<String, Expression> {
     fn apply<V: Visitor>(self, visitor: &mut V) -> Result<Self, crate::reduce::Error> {
         let visited: Vec<_> = self
             .into_iter()
-            .map(|(k, v)| visitor.reduce(v).map(|v| (k, v)))
+            .map(|(k, v)| v.apply(visitor).map(|v| (k, v)))
             .collect::<Result<_, _>>()?;
 
         Ok(visited.into_iter().collect())
